@@ -249,7 +249,7 @@ def footprint(before, after, kind, pi):
     if kind == 'show_or_muck_hole_cards' and before.street is not None:
         want = [i for i in before.showdown_indices if i != pi]
         got = list(after.showdown_indices)
-        if after.status and after.street is before.street and \
+        if after.status and after.street_index == before.street_index and \
                 sorted(got) != sorted(want) and got:
             return (f'players still to show were {list(before.showdown_indices)},'
                     f' player {pi} showed/mucked, now {got}')
